@@ -38,18 +38,16 @@ def run(ctx):
     rng = ctx.rng
     cases, metas = [], {}
     for k in range(ctx.budget(1200, 40000)):
-        line, m = gen.gen_upd(rng.fork('u%d' % k), k)
+        line, m = gen.gen_upd(rng.fork('u%d' % k), k, wtype='i')
         cases.append(line)
         metas[k] = m
-    res = ctx.component('K-UPD', cases)
-    graphs = [gen.gen_graph_random(rng.fork('g%d' % k), 500000 + k)[0] for k in range(ctx.budget(200, 3000))]
-    ctx.component('K-GRAPH', graphs)
+    res = ctx.component('K-UPD', cases, keys={'dims', 'u1', 'v1', 'w1', 'sweep_u', 'sweep_v', 'sweep_w'})
     traj, tmetas = [], {}
     for k in range(ctx.budget(60, 1500)):
         line, m = gen.gen_e2e(rng.fork('t%d' % k), 600000 + k, maxit_max=12, r_max=2, trace=2)
         traj.append(line)
         tmetas[600000 + k] = m
-    res2 = ctx.component('K-E2E', traj)
+    res2 = ctx.component('K-E2E(trajectories, implementation only)', traj, model=False)
     n_eval = 0
     verdicts = {'ok': 0, 'boundary': 0, 'bad': 0, 'unreachable': 0}
     keys = set()
